@@ -62,34 +62,41 @@ theorem trained_true (g : G) (q : Sub) (hq : q ∈ g.ports) (ha : q.port.isApply
 theorem subscription_none (g : G) (s : Sub) (h : subscription g s = none) :
     s ∉ g.ports ∧
     (∀ q ∈ g.ports, q.node = s.node → (inputs g s.node).any Port.isApply = s.port.isApply) ∧
-    (s.port.isApply = false → publishes g s.node = false) ∧ isFuture g s.node = false := by
+    (s.port.isApply = false → publishes g s.node = false) ∧ isFuture g s.node = false ∧
+    (s.port.isApply = false → (group g s.node).any (fun m => m != s.node && trained g m) = false) := by
   unfold subscription at h
   simp only at h
   split at h
   · cases h
-  · rename_i h1
+  · rename_i h4
     split at h
     · cases h
-    · rename_i h2
+    · rename_i h1
       split at h
       · cases h
-      · rename_i h3
+      · rename_i h2
         split at h
         · cases h
-        · rename_i h4
-          refine ⟨fun hm => h1 ((mem_inputs g s).mpr hm), ?_, ?_, by simpa using h4⟩
-          · intro q hq hqn
-            have hne : (inputs g s.node).isEmpty = false := by
-              have : q.port ∈ inputs g s.node := by
-                rw [← hqn]; exact (mem_inputs g q).mpr hq
-              cases hi : inputs g s.node with
-              | nil => rw [hi] at this; cases this
-              | cons _ _ => rfl
-            simp only [hne, Bool.not_false, Bool.true_and, bne_iff_ne, ne_eq, Decidable.not_not] at h2
-            exact h2.symm
-          · intro hp
-            simp only [hp, Bool.not_false, Bool.true_and, Bool.not_eq_true] at h3
-            exact h3
+        · rename_i h3
+          split at h
+          · cases h
+          · rename_i h5
+            refine ⟨fun hm => h1 ((mem_inputs g s).mpr hm), ?_, ?_, by simpa using h4, ?_⟩
+            · intro q hq hqn
+              have hne : (inputs g s.node).isEmpty = false := by
+                have : q.port ∈ inputs g s.node := by
+                  rw [← hqn]; exact (mem_inputs g q).mpr hq
+                cases hi : inputs g s.node with
+                | nil => rw [hi] at this; cases this
+                | cons _ _ => rfl
+              simp only [hne, Bool.not_false, Bool.true_and, bne_iff_ne, ne_eq, Decidable.not_not] at h2
+              exact h2.symm
+            · intro hp
+              simp only [hp, Bool.not_false, Bool.true_and, Bool.not_eq_true] at h3
+              exact h3
+            · intro hp
+              simp only [hp, Bool.not_false, Bool.true_and, Bool.not_eq_true] at h5
+              exact h5
 
 /-- `any isApply` over the subscribed ports of a node decides the kind of every edge into it (I3 + I6) -/
 theorem any_apply (g : G) (i3 : I3 g) (i6 : I6 g) (e : Edge) (he : e ∈ g.edges) :
